@@ -334,7 +334,7 @@ def threads_gated(res, rng, lines, impl_out, count, tag0):
                     released.add(e.event_id)
                     lines.append(f'pfin {e.event_id}')
                     script.append(['finish', e.event_id])
-                    if wait_until(lambda: h.size() == size0 + 1, 10.0):
+                    if wait_until(lambda: h.size() == size0 + 1, 3.0):
                         impl_out.append('ok')
                     else:
                         impl_out.append('no-response')
@@ -368,7 +368,7 @@ def threads_gated(res, rng, lines, impl_out, count, tag0):
         if ok:
             check_responses(res, case, accepted, got, False, 'multithreading')
         else:
-            res.violations.append(Violation('response-missing:multithreading', 'a finished action produced no response within 10 s', case))
+            res.violations.append(Violation('response-missing:multithreading', 'a finished action produced no response within 3 s', case))
 
 
 def pool_free_running(res, rng, make_handler, name, workers, n, tag, same_object, timeout=30.0):
